@@ -57,7 +57,7 @@ SPECS['C08'] = dict(
                  'epoch conversion of all-day instants is not judged (which second an all-day instant denotes is not stated)',
                  'fixup is read mktime-like: months carry into the year first, then days run on from the 1st of that month'],
     quick=dict(workers=16, cases=3000, size=100, timeout=900),
-    thorough=dict(workers=16, cases=400000, size=100, timeout=3600),
+    thorough=dict(workers=16, cases=60000, size=100, timeout=3600),
 )
 
 SPECS['C18'] = dict(
